@@ -24,6 +24,15 @@ def env():
     for n, v in vals.items():
         els[n] = m.constant(n)
         els[n].equation = v
+    # operands of every element KIND (the overloads live on Element, but Flow/Stock/Converter/Biflow are separate classes):
+    # a flow (4.0), a flow whose equation is negative (clamped: 0.0 — a falsy value), a biflow (-4.0), a stock (6.0 at any time,
+    # no inflow), a converter holding a compound equation (a + b = 10.0)
+    fl = m.flow("fl"); fl.equation = els["a"] - els["b"]; vals["fl"] = 4.0
+    fz = m.flow("fz"); fz.equation = els["b"] - els["a"]; vals["fz"] = 0
+    bf = m.biflow("bf"); bf.equation = els["b"] - els["a"]; vals["bf"] = -4.0
+    st = m.stock("st"); st.initial_value = 6.0; vals["st"] = 6.0
+    cvx = m.converter("cvx"); cvx.equation = els["a"] + els["b"]; vals["cvx"] = 10.0
+    els.update({"fl": fl, "fz": fz, "bf": bf, "st": st, "cvx": cvx})
     v = m.constant("v"); v.setup_vector(3, [2.0, 3.0, 5.0])
     w = m.constant("w"); w.setup_vector(3, [7.0, 11.0, 13.0])
     mm = m.constant("mm"); mm.setup_matrix([2, 2], [[2.0, 3.0], [5.0, 7.0]])
@@ -276,7 +285,7 @@ def ref_eval(g, vals, arrs):
         elif k == "and": r = c[0] and c[1]
         elif k == "or": r = c[0] or c[1]
         elif k == "if": r = c[1] if c[0] else c[2]
-        elif k == "round": r = round(c[0], 2)
+        elif k == "round": r = round(c[0], c[1] if len(c) > 1 else 2)
         else: raise Reject(k)
     except (ZeroDivisionError, OverflowError, ValueError, TypeError):
         raise Reject("domain")
@@ -330,7 +339,7 @@ def build_real(g, els, arrs):
     if k == "and": return sd.And(c[0], c[1])
     if k == "or": return sd.Or(c[0], c[1])
     if k == "if": return sd.If(c[0], c[1], c[2])
-    if k == "round": return sd.round(c[0], 2)
+    if k == "round": return sd.round(c[0], c[1] if len(c) > 1 else 2)
     raise Reject(k)
 
 
@@ -512,6 +521,42 @@ def classification_cases():
     return [r for r, _ in rows], [i for i, _ in inner], [(r, i, mk(x)) for r, mk in rows for i, x in inner]
 
 
+NUMBER_KINDS = [("int0", 0), ("float0", 0.0), ("int1", 1), ("int-1", -1), ("int2", 2), ("0.1", 0.1), ("1e-05", 1e-05), ("1e9", 1e9),
+                ("-2.5", -2.5), ("123456.789012", 123456.789012), ("True", True), ("np.float64", np.float64(2.0)), ("np.int64", np.int64(2))]
+
+
+def value_kind_trees():
+    """[(row, G-tree)]: every overloaded binary operator × operand position × KIND of number (int / float / falsy 0 and 0.0 /
+    negative / large / many decimals / bool / numpy scalars) against an element and a compound operand; the functions with
+    numeric arguments (round digits 0..3, If branches 0 / 0.0, min/max/And/Or/Not with 0); and every element KIND (flow,
+    clamped flow = 0, biflow, stock, converter with a compound equation) as left and right operand of every binary operator"""
+    a, b = ("el", "a"), ("el", "b")
+    comp = ("sub", a, b)
+    out = []
+    for kn, kv in NUMBER_KINDS:
+        for op in BIN + list(CMPN):
+            for other in (a, comp):
+                out.append((f"number:{kn}", (op, other, ("num", kv))))
+                out.append((f"number:{kn}", (op, ("num", kv), other)))
+        out.append((f"number:{kn}", ("if", ("gt", a, b), ("num", kv), b)))
+        out.append((f"number:{kn}", ("if", ("lt", a, b), a, ("num", kv))))
+        for f in ("min", "max", "and", "or"):
+            out.append((f"number:{kn}", (f, a, ("num", kv)))); out.append((f"number:{kn}", (f, ("num", kv), comp)))
+        out.append((f"number:{kn}", ("mul", ("neg", ("mul", a, ("num", kv))), b)))
+    for dg in (0, 1, 2, 3):
+        out.append((f"round-digits:{dg}", ("round", ("div", a, b), dg)))
+        out.append((f"round-digits:{dg}", ("sub", b, ("round", ("mul", ("div", a, b), ("num", 10.0)), dg))))
+    for kind in ("fl", "fz", "bf", "st", "cvx"):
+        e = ("el", kind)
+        for op in BIN + list(CMPN):
+            out.append((f"element:{kind}", (op, e, b))); out.append((f"element:{kind}", (op, a, e)))
+            out.append((f"element:{kind}", (op, ("add", e, a), ("num", 2.0)))); out.append((f"element:{kind}", (op, ("num", 2.0), e)))
+        for f in ("neg", "abs", "not"):
+            out.append((f"element:{kind}", (f, e)))
+        out.append((f"element:{kind}", ("if", e, a, b)))
+    return out
+
+
 def signed_trees():
     """stacked unary minus (0–3 signs) over EVERY operator class / sd function the DSL offers, bare, through a shared
     intermediate variable, and as left / right operand of an outer + - * / ; a unary minus is a build step
@@ -672,6 +717,12 @@ def run(chk):
     st = signed_trees()
     n_st = len(st)
     trees += st
+    vk = value_kind_trees()
+    vk_row = {}
+    for r, g in vk:
+        vk_row[len(trees)] = r
+        trees.append(g)
+    vk_counts = {}
     rng = chk.rng.fork("c02")
     for _ in range(400 if chk.quick else 6000):
         trees.append(gen_tree(rng, rng.range(2, 5)))
@@ -705,6 +756,9 @@ def run(chk):
             return False
     cls_detail = {}
     def classify(ti, code, detail=None):
+        if ti in vk_row:
+            c_ = vk_counts.setdefault(vk_row[ti], {})
+            c_[code] = c_.get(code, 0) + 1
         if ti in label:
             cls_code[label[ti]] = code
             if detail:
@@ -715,7 +769,7 @@ def run(chk):
             dom = True
         except Reject:
             exp, dom = None, False
-            if ti not in label:
+            if ti not in label and ti not in vk_row:
                 stats["rejected_domain"] += 1
                 continue
         try:
@@ -779,6 +833,9 @@ def run(chk):
     chk.cov["depth3_reduced_alphabet_trees"] = n_d3
     chk.cov["number_left_right_trees"] = n_ns
     chk.cov["stacked_minus_trees"] = n_st
+    # per kind of number / element: how many trees were accepted-and-right (R), rejected when built (B) / evaluated (E), no DSL
+    # object (P), outside the comparable domain (D), wrong (W)
+    chk.cov["value_and_element_kinds"] = vk_counts
     chk.cov["negated_builds"] = {"classes": len(negrows[1]), "not_ok": neg_bad, "sign_pairs_cancelled": neg_folded[:10], "problems": neg_problems}
     chk.cov["reflected_overloads"] = {"probed": [r[0] for r in refl], "not_ok": refl_bad, "unspecified": refl_unspec, "problems": refl_problems}
     chk.cov["distribution"] = stats
